@@ -812,5 +812,6 @@ func Parts() []mc.Part {
 	return []mc.Part{
 		mc.ExplorePartC(ledger.Name, New(ledger), 5, 6, false, ledger.Rule, &mc.ConfOpts{Stores: []string{"mt"}, SkipDenoms: map[string]bool{"stake": true}, MaxPaths: 100}),
 		mc.ExplorePartC(auth.Name, New(auth), 6, 8, false, auth.Rule, &mc.ConfOpts{Stores: []string{"mt"}, SkipDenoms: map[string]bool{"stake": true}, MaxPaths: 100}),
+		GenesisImportPart(),
 	}
 }
